@@ -7,6 +7,28 @@ drivers' direct monitors check acquire/release alternation, everybody served, no
 import k1
 from units import mutex
 LEVEL = "proof"
+
+class _Keyed:
+    """Forwards to the real Check but gives every violation that is a manifestation of finding 12
+    (completion_forwarder's scheduler hop is cancellable: a lock that was already granted is
+    turned into set_done and the mutex stays locked) ONE specific key, whatever program and
+    schedule exhibited it.  The driver's monitor marks those runs with "hop-cancelled"."""
+    KEY = "mutex_v2/forwarder-hop-cancellable-lock-leak"
+    def __init__(self, chk):
+        self.__dict__["_c"] = chk
+    def __getattr__(self, n):
+        return getattr(self._c, n)
+    def __setattr__(self, n, v):
+        setattr(self._c, n, v)
+    def violation(self, key, replay_path, no_input=False, text=""):
+        try:
+            txt = open(replay_path).read()
+        except Exception:
+            txt = ""
+        if "hop-cancelled" in txt and ("/monitor" in key or "/deadlock" in key):
+            key = self.KEY
+        return self._c.violation(key, replay_path, no_input, text)
+
 def run(chk, replay=None):
     chk.cov["trusted_base"] = [
         "Coq 8.16.1 kernel; no axioms (Print Assumptions closed) for every theorem in Properties_C15_v1.v / Properties_C15_v2.v",
@@ -18,5 +40,5 @@ def run(chk, replay=None):
     chk.cov["rule"] = ("K1: all schedules of each program with <= bound preemptions plus seeded random ones; "
                        "distinct = distinct projected traces; non-trivial = at least two context switches among owned events")
     chk.prove()
-    for u in mutex.UNITS:
-        k1.run_unit(chk, u())
+    k1.run_unit(chk, mutex.MutexV1())
+    k1.run_unit(_Keyed(chk), mutex.MutexV2())
